@@ -59,6 +59,7 @@ type Case struct {
 	// AddFormData, taking turns between the fields, instead of through the struct helper (which adds a key's values
 	// back to back)
 	Interleave bool `json:",omitempty"`
+	Jar        bool `json:",omitempty"` // cookie source: the client's cookie jar already holds cookies with names of the struct
 }
 
 // interleaved calls add(key, value) for the elements of the slice fields in round-robin order
@@ -210,6 +211,15 @@ func check(c Case) vk.Verdict {
 		}
 		r.AddHeaders(h)
 	case "cookie":
+		if c.Jar {
+			// the client has a cookie jar that holds, from an earlier answer of the host, cookies with two of the names
+			// the struct uses: what the caller sets for this request takes precedence over what the jar remembers
+			jar := client.AcquireCookieJar()
+			jar.SetKeyValue("example.com", "s", "stale-from-the-jar")
+			jar.SetKeyValue("example.com", "i", "7777")
+			s.cl.SetCookieJar(jar)
+			defer func() { s.cl.SetCookieJar(nil); client.ReleaseCookieJar(jar) }()
+		}
 		r.SetCookiesWithStruct(v)
 	case "json":
 		r.SetJSON(v)
@@ -281,6 +291,7 @@ func genCase(t *rapid.T) Case {
 	if c.Source == "query" || c.Source == "form" || c.Source == "multipart" {
 		c.Interleave = rapid.Bool().Draw(t, "interleave")
 	}
+	c.Jar = c.Source == "cookie" && rapid.Bool().Draw(t, "jar")
 	sg := strGen(c.Source, c.Split)
 	ext := func(lo, hi int64) int64 {
 		return rapid.OneOf(rapid.Int64Range(lo, hi), rapid.SampledFrom([]int64{lo, hi, 0, -1, 1})).Filter(func(x int64) bool { return x >= lo && x <= hi }).Draw(t, "int")
